@@ -1750,6 +1750,7 @@ static inline int
 ecdsa_dh(ec_curve_p curve, int use_cofactor, ec_point_p pub_key,
     bn_p priv_key, bn_p shared_key) {
 	ec_point_t Q;
+	bn_t h;
 
 	if (NULL == curve || NULL == pub_key || NULL == priv_key ||
 	    NULL == shared_key)
@@ -1761,9 +1762,14 @@ ecdsa_dh(ec_curve_p curve, int use_cofactor, ec_point_p pub_key,
 	BN_RET_ON_ERR(ec_point_assign(&Q, pub_key));
 	BN_RET_ON_ERR(bn_assign(shared_key, priv_key)); /* Use as temp. */
 	/* P = (Px, Py) = h * d * Q */
-	if (0 != use_cofactor) {
-		BN_RET_ON_ERR(bn_mod_mult_digit(shared_key, curve->h,
-		    &curve->n, &curve->n_mod_rd_data));
+	if (0 != use_cofactor && 1 != curve->h) {
+		/* Q = h * Q first: (h * d) mod n is an other multiple for
+		 * a point that is not in the subgroup of order n. */
+		BN_RET_ON_ERR(bn_init(&h, curve->m));
+		BN_RET_ON_ERR(bn_assign_digit(&h, curve->h));
+		BN_RET_ON_ERR(ec_point_unknown_pt_mult(&Q, &h, curve));
+		if (0 != Q.infinity)
+			return (-1);
 	}
 	BN_RET_ON_ERR(ec_point_unknown_pt_mult(&Q, shared_key, curve));
 	if (0 != Q.infinity)
